@@ -216,15 +216,13 @@ def reset_z(
         tableau, qubit_position, measurement_determinism
     )
     if probabilistic:
-        tableau.phase[probabilistic] = intended_state
         tableau.iphase[probabilistic] = 0
-        return tableau
 
+    # the rest of the state has collapsed according to the measurement outcome; flip the qubit if needed
+    if outcome == intended_state:
+        return tableau
     else:
-        if outcome == intended_state:
-            return tableau
-        else:
-            return x_gate(tableau, qubit_position)
+        return x_gate(tableau, qubit_position)
 
 
 def reset_x(
